@@ -12,9 +12,13 @@ import itertools
 import c06_build as cb
 
 ID = "C06"
-RULE = ("corpus, then the definition-time table COMPLETELY (api x frozen base / hooked mutable base x frozen= x own __setattr__ x "
-        "auto_detect x class-level {None, NO_OP, hook, validate, [], [convert]} x field-level {None, NO_OP, hook, [], validate} x "
-        "converter: one case per chain = does it define and with which error), then chains of <=4 classes (attrs via attr.s/"
+RULE = ("corpus, then the definition-time table COMPLETELY (api incl. attrs.frozen x frozen base / hooked mutable base x frozen= x "
+        "own __setattr__ x auto_detect x class-level {None, NO_OP, hook, validate, [], [convert]} x field-level {None, NO_OP, hook, "
+        "[], validate} x converter x the hooked field's {init=True, init=False without default, init=False with default}: one case "
+        "per chain = does it define and with which error) and the decorator-object-reuse block (define/mutable/attr.s/frozen x class "
+        "below a frozen base or not x the SAME decorator object first applied to 1-2 other classes: below frozen / hooked / plain "
+        "bases, with own __setattr__, with/without converters and validators; definition outcome of all 256, histories on a sample; "
+        "30% of decorator-built classes in random chains get such a history too; 15% of random fields are init=False), then chains of <=4 classes (attrs via attr.s/"
         "these/make_class/define/mutable/frozen, plain classes with/without __slots__ in between, optional Exception root) over "
         "per-field {on_setattr: None, NO_OP, [], hook, [h1,h2], frozen, validate, convert and mixed pipes} x {converter: none, "
         "plain, Converter(takes_self,takes_field) x4} x {0,1,2 validators} x private names x redefinition in subclasses, per-class "
@@ -35,6 +39,8 @@ RULE = ("corpus, then the definition-time table COMPLETELY (api x frozen base / 
         "setters.frozen field; random chains: 25% of classes). Hooks returning None are among the hook identities. Non-trivial = a definition error, or some step makes callbacks or "
         "raises; distinct = distinct case")
 ASSUMPTIONS = [
+    "decorator-object reuse is harness-only variation: the model is a function of the class specification alone, so any dependence of a class on what its decorator object was applied to before shows up as a disagreement / violation",
+    "init=False fields: `ctor` (value real construction stores for f=v) is only observed and demanded for init=True fields; default values only accompany init=False",
     "user hooks, converters and validators are instrumented closures returning symbolic strings; user callbacks raise only when the fault position says so",
     "multiple inheritance is covered for two direct bases = the attrs/plain chain parent + one plain mixin deriving from object (either order: `__base__` is the mixin or the parent); two attrs bases / diamonds are not generated",
     "the model tracks the raised exception as a token and re-types it at the observation (`retype`): justified by C06_failure_type_independent and checked against the real propagated type (exact `type(e)`) for 8 exception types",
@@ -60,7 +66,8 @@ LEVEL_TEXT = (
     "C06_resolution_nearest, C06_resolution_reset (field over class, the class-level argument is the defined class's own, nearest "
     "field definition, direct-base reset); C06_inherits_only_when_confused (hooks are inherited only through plain-class-then-"
     "slotted-class = K6); C06_rejected / C06_accepted against the statement's tables, C06_rejected_define_wrap, C06_rejected_iff, "
-    "C06_rejected_kind, C06_frozen_never_hooked, C06_normalisation_invisible; C06_leaf; C06_model_meets_spec; K6 witness. Tied to "
+    "C06_rejected_kind, C06_rejected_whatever_field_options (the field-level frozen check ignores init/default/"
+    "converter/validators/owner), C06_frozen_never_hooked, C06_normalisation_invisible; C06_leaf; C06_model_meets_spec; K6 witness. Tied to "
     "/repo by differential correspondence on field values after every step, callback traces (kind, which Attribute, arguments), "
     "exception identity, definition errors and the value real construction stores, with single-fault enumeration at every "
     "callback position and runs with validators disabled. Bounds of the correspondence: chains of <=4 (+ an "
@@ -115,8 +122,17 @@ def conv_json(kind):
     return {"takesSelf": kind[1] == "1", "takesField": kind[2] == "1"}
 
 
+PRIOR_KINDS = [
+    {"base": "frozen", "conv": True, "val": False}, {"base": "frozen", "conv": False, "val": False},
+    {"base": "hooked", "conv": True, "val": True}, {"base": "plain", "conv": False, "val": True},
+    {"base": "object", "conv": True, "val": True}, {"base": "object", "conv": False, "val": False},
+    {"base": "object", "own": True, "conv": False, "val": False}, {"base": "object", "own": True, "conv": True, "val": True},
+]
+
+
 def mk_field(name, ci, on="unset", conv=None, validators=0, **extra):
-    f = {"name": name, "tag": f"{name}@{ci}", "conv": conv_json(conv), "validators": validators, "onSet": on}
+    f = {"name": name, "tag": f"{name}@{ci}", "conv": conv_json(conv), "validators": validators, "onSet": on,
+         "init": True, "dflt": False}
     if conv is not None:
         f["conv_kind"] = conv
     f.update(extra)
@@ -225,16 +241,41 @@ def systematic_chains():
             for co in ("unset", "noop", bare(U(50)), bare("validate"), lst(), lst("convert")):
                 for fo in ("unset", "noop", chain(U(10)), chain(), chain("validate")):
                     for conv in (None, "c00"):
-                        classes = []
-                        if frozen_base:
-                            classes.append(mk_attrs(0, [mk_field("w", 0)], frozen=True))
-                        elif conv is None and not own:
-                            # a mutable base whose field carries a hook: freezing a subclass must be rejected too
-                            classes.append(mk_attrs(0, [mk_field("w", 0, fo)]))
-                        ci = len(classes)
-                        classes.append(mk_attrs(ci, [mk_field("x", ci, fo, conv, 0)], define=define, slots=False,
-                                                cls_on=co, frozen=frozen_arg, own=own, auto=auto or define))
-                        yield "deftable", retag(classes)
+                        # the rule must not depend on the hooked field's other options: init=False with/without default
+                        for init, dflt in ((True, False), (False, False), (False, True)):
+                            classes = []
+                            if frozen_base:
+                                classes.append(mk_attrs(0, [mk_field("w", 0)], frozen=True))
+                            elif conv is None and not own:
+                                # a mutable base whose field carries a hook: freezing a subclass must be rejected too
+                                classes.append(mk_attrs(0, [mk_field("w", 0, fo, init=init, dflt=dflt)]))
+                            ci = len(classes)
+                            fs = [mk_field("x", ci, fo, conv, 0, init=init, dflt=dflt)]
+                            if not init:
+                                fs.insert(0, mk_field("y", ci))
+                            cs = mk_attrs(ci, fs, define=define, slots=False, cls_on=co, frozen=frozen_arg, own=own,
+                                          auto=auto or define)
+                            if define and frozen_arg and conv:
+                                cs["api"] = "frozen"
+                            classes.append(cs)
+                            yield "deftable", retag(classes)
+    # decorator-object reuse: the decorator object is first applied to 1-2 other classes (below frozen / hooked / plain
+    # bases, with own __setattr__, with/without converters and validators)
+    priors = [[p] for p in PRIOR_KINDS] + [[p1, p2] for p1 in PRIOR_KINDS[:3] for p2 in PRIOR_KINDS]
+    for api in ("define", "mutable", "attr.s", "frozen"):
+        for below_frozen in (False, True):
+            for pr in priors:
+                define = api != "attr.s"
+                classes = []
+                if below_frozen:
+                    classes.append(mk_attrs(0, [mk_field("w", 0)], frozen=True))
+                ci = len(classes)
+                cs = mk_attrs(ci, [mk_field("x", ci, "unset", "c11", 1), mk_field("y", ci)], define=define, slots=False,
+                              frozen=(api == "frozen"))
+                cs["api"] = api
+                cs["deco_prior"] = [dict(p) for p in pr]
+                classes.append(cs)
+                yield "deco", retag(classes)
 
 
 def gen_field(rng, name, ci, hid):
@@ -244,6 +285,9 @@ def gen_field(rng, name, ci, hid):
     f["validator_form"] = rng.choice(["single", "list"])
     if on == "unset" and rng.random() < 0.2:
         f["pass_none"] = True
+    if rng.random() < 0.15:
+        f["init"] = False
+        f["dflt"] = rng.random() < 0.5
     return f
 
 
@@ -280,6 +324,8 @@ def gen_chain(rng, dirty=False):
                 cs[key] = True
         if classes and rng.random() < 0.25:
             cs = with_mixin(cs, rng.random() < 0.5, rng.random() < 0.6)
+        if cs["api"] in ("attr.s", "define", "mutable") and rng.random() < 0.3:
+            cs["deco_prior"] = [dict(rng.choice(PRIOR_KINDS)) for _ in range(rng.choice([1, 1, 2]))]
         if dirty:
             r = rng.random()
             if r < 0.3:
@@ -365,16 +411,16 @@ def gen_cases(tier, rng):
     sys_chains = list(systematic_chains())
     # the definition-time table first, completely (one cheap case per chain: does it define, and with which error)
     for lab, ch in sys_chains:
-        if lab == "deftable":
+        if lab in ("deftable", "deco"):
             yield mk_case(ch, [], None, False, True)
     if tier == "quick":
         by_label = {}
         for lab, ch in sys_chains:
-            by_label.setdefault(lab if lab in ("single", "deftable") else "mi" if lab.startswith("mi:") else "shape",
+            by_label.setdefault(lab if lab in ("single", "deftable", "deco") else "mi" if lab.startswith("mi:") else "shape",
                                 []).append(ch)
         picked = []
         for lab, chs in by_label.items():
-            k = {"single": 230, "deftable": 120, "shape": 260, "mi": 300}[lab]
+            k = {"single": 220, "deftable": 120, "shape": 240, "mi": 260, "deco": 120}[lab]
             picked += rng.sample(chs, min(k, len(chs)))
         rng.shuffle(picked)
         sys_iter = picked
@@ -447,6 +493,9 @@ def dist(case, obs):
         "fault": fault_kind,
         "fault_step": case["fault"][0] if case.get("fault") else -1,
         "fault_type": (case.get("faultKind") or "user") if case.get("fault") else "none",
+        "deco_prior": "+".join(p["base"] + ("/own" if p.get("own") else "") for c in cl for p in (c.get("deco_prior") or [])) or "none",
+        "init_false": ",".join(sorted({("init" if f.get("init", True) else "noinit" + ("+dflt" if f.get("dflt") else ""))
+                                       for c in cl for f in c["fields"]})) or "none",
         "mixin": ",".join(sorted({("none" if c.get("mixin") is None else ("slots" if c["mixin"] else "dict") +
                                   ("-first" if c.get("mixin_first", True) else "-second")) for c in cl})),
         "values": ",".join(sorted({"None" if a["value"] == "None" else "empty" if a["value"] == "" else
@@ -476,6 +525,18 @@ def shrink(case):
         yield dict(case, history=h[:i] + h[i + 1:], fault=f2)
     if case.get("fault"):
         yield dict(case, fault=None, faultKind=None)
+    for i, c in enumerate(cl):
+        if c.get("deco_prior"):
+            for d in range(len(c["deco_prior"])):
+                c2 = copy.deepcopy(cl)
+                del c2[i]["deco_prior"][d]
+                yield dict(case, classes=c2)
+        for j, f in enumerate(c["fields"]):
+            if not f.get("init", True):
+                c2 = copy.deepcopy(cl)
+                c2[i]["fields"][j]["init"] = True
+                c2[i]["fields"][j]["dflt"] = False
+                yield dict(case, classes=c2)
     for i, c in enumerate(cl):
         if c.get("mixin") is not None:
             c2 = copy.deepcopy(cl)
